@@ -9,7 +9,7 @@ from .. import gens
 from ..trace import Trace
 
 RULE = ("Cases: signals of 48..512 samples (tones, AM/FM, noise, walk, levels) x mask frequency source {'zc','if', float, "
-        "list} x amplitude mode {abs, ratio_sig, ratio_imf} x scalar / array mask_amp x mask_step_factor in [1.5,4] x "
+        "list} x amplitude mode {abs, ratio_sig, ratio_imf} x scalar / array mask_amp (positive, zero and negative, i.e. sign-flipped masks) x mask_step_factor in [1.5,4] x "
         "nphases 1..8 x nprocesses 1..8 x IMF options. Oracle (executable specification): get_next_imf_mask(x,z,a,P) == "
         "mean over p<P of [get_next_imf(x + a*cos(2pi z t + 2pi p/P)) - a*cos(...)] (1e-12 rel), flag == any member flag; "
         "mask_sift == the specified loop (frequency ladder z/step^i or the user's list, amplitude rule per mode, "
@@ -47,7 +47,7 @@ def imf_case(draw):
     opts = draw(st.sampled_from([{}, {'stop_method': 'fixed', 'max_iters': 3}, {'stop_method': 'rilling'},
                                  {'env_step_size': 0.5, 'sd_thresh': 0.05}]))
     return {'sig': sig, 'z': draw(st.sampled_from([0.4, 0.25, 0.11, 0.03, 0.007])),
-            'amp': draw(st.sampled_from([0.0, 0.3, 1.0, 2.5])), 'nphases': draw(st.integers(1, 8)),
+            'amp': draw(st.sampled_from([0.0, 0.3, 1.0, 2.5, -0.7])), 'nphases': draw(st.integers(1, 8)),
             'nproc': draw(st.integers(1, 8)), 'opts': opts}
 
 
@@ -87,7 +87,8 @@ def oracle_imf(case, rec):
     pids = [p for p in tr.pids('get_next_imf') if p != os.getpid()]
     rec.cls('worker_pids=%d' % len(pids))
     rec.cls('nprocesses=%d' % case['nproc'])
-    return a > 0 and P >= 2
+    rec.cls('amplitude ' + ('zero' if a == 0 else 'negative' if a < 0 else 'positive'))
+    return a != 0 and P >= 2
 
 
 @st.composite
@@ -102,9 +103,11 @@ def sift_case(draw):
         freqs = [0.3, 0.12, 0.05, 0.02, 0.008][:draw(st.integers(1, 5))]
     else:
         freqs = src
-    amp = draw(st.sampled_from([1, 0.5, 2.0, 'array']))
+    amp = draw(st.sampled_from([1, 0.5, 2.0, -0.8, 'array', 'array-signed']))
     if amp == 'array':
         amp = np.array([1.0, 0.5, 2.0, 1.5, 0.7, 1.0, 1.0, 1.0, 1.0])
+    elif amp == 'array-signed':
+        amp = np.array([1.0, -0.5, 2.0, -1.5, 0.7, 1.0, 1.0, 1.0, 1.0])
     opts = draw(st.sampled_from([None, {'stop_method': 'fixed', 'max_iters': 4}, {'sd_thresh': 0.2}]))
     return {'sig': sig, 'freqs': freqs, 'mode': draw(st.sampled_from(['abs', 'ratio_sig', 'ratio_imf'])), 'amp': amp,
             'step': draw(st.sampled_from([1.5, 2, 2.0, 3, 4.0])), 'nphases': draw(st.integers(1, 8)),
